@@ -95,12 +95,35 @@ def h01_duration(secs):
     assert out.value == value
 
 
+def h01_date_us(us):
+    """naive datetimes at microsecond resolution, 1900-01-01 .. 2100-12-31"""
+    value = EPOCH + timedelta(microseconds=us)
+    out = roundtrip(value)
+    assert isinstance(out, DateCell)
+    assert out.value == value
+
+
+def h01_duration_us(us):
+    value = timedelta(microseconds=us)
+    out = roundtrip(value)
+    assert isinstance(out, DurationCell)
+    assert out.value == value
+
+
 E_QUICK = [-290, -30, -7, -5, -4, -1, 0, 1, 2, 5, 14, 15, 16, 17, 22, 100, 289]
 E_THOROUGH = list(range(-290, 290))
 N_QUICK = [1, 2, 3, 7, 15]
 N_THOROUGH = list(range(1, 16))
 YEAR1 = -63113904000          # 0001-01-01 relative to 2001-01-01, seconds
 YEAR9999 = 252423993599       # 9999-12-31T23:59:59
+
+US1900 = (datetime(1900, 1, 1) - EPOCH) // timedelta(microseconds=1)
+US2100 = (datetime(2100, 12, 31, 23, 59, 59, 999999) - EPOCH) // timedelta(microseconds=1)
+FP_ENCLOSURE = ("binary64 arithmetic on non-integral values (timedelta.total_seconds, timedelta(seconds=float), float +-*/ by "
+                "constants) is encoded as the IEEE-754 round-to-nearest error enclosure over linear real/integer arithmetic: "
+                "|RN(v) - v| <= 2^-53 |v| + 2^-1074, integers <= 2^53 are fixed points, rounding is monotone; "
+                "timedelta(seconds=x) follows CPython's accum()/delta_new (modf exact, fraction scaled by 10^6 and rounded "
+                "half-to-even). Sound over-approximation: what is proved holds for the real doubles")
 
 HARNESSES = [
     Harness("H01-int", h01_int, dict(n=IntDom(-(10 ** 15) + 1, 10 ** 15 - 1)),
@@ -116,9 +139,16 @@ HARNESSES = [
             outside=["the characters of the text (protobuf string table serialisation)"]),
     Harness("H01-date", h01_date, dict(secs=IntDom(YEAR1, YEAR9999)),
             bounds="every whole second from 0001-01-01T00:00:00 to 9999-12-31T23:59:59",
-            outside=["sub-second datetimes (float products: z3 unknown / cvc5 timeout at 300 s)"]),
+            outside=["sub-second datetimes outside 1900..2100 (beyond the property's quantifier: doubles of that magnitude "
+                     "cannot hold microseconds)"]),
     Harness("H01-dur", h01_duration, dict(secs=IntDom(-3155760000, 3155760000)),
-            bounds="every whole-second timedelta within +-100 years", outside=["microsecond-resolution durations"]),
+            bounds="every whole-second timedelta within +-100 years"),
+    Harness("H01-date-us", h01_date_us, dict(us=IntDom(US1900, US2100)),
+            bounds="every microsecond from 1900-01-01T00:00:00 to 2100-12-31T23:59:59.999999",
+            stubs=[FP_ENCLOSURE]),
+    Harness("H01-dur-us", h01_duration_us, dict(us=IntDom(-3155760000 * 10 ** 6, 3155760000 * 10 ** 6)),
+            bounds="every timedelta within +-100 years at microsecond resolution",
+            stubs=[FP_ENCLOSURE]),
 ]
 
 
@@ -156,7 +186,7 @@ E_Q2 = sorted(set(E_QUICK + list(range(-290, 290, 10))))
 _Q = [(n, e) for n in N_THOROUGH for e in E_Q2]
 _T = [(n, e) for n in N_THOROUGH for e in E_THOROUGH]
 HARNESSES += [_mk_dec(n, e) for n, e in _T]
-BASE = ["H01-int", "H01-zero", "H01-bool", "H01-text", "H01-date", "H01-dur"]
+BASE = ["H01-int", "H01-zero", "H01-bool", "H01-text", "H01-date", "H01-dur", "H01-date-us", "H01-dur-us"]
 TIER_HARNESSES = {"quick": BASE + [f"H01-dec-n{n}-e{e}" for n, e in _Q],
                   "thorough": BASE + [f"H01-dec-n{n}-e{e}" for n, e in _T]}
 # the tile / row-info rebuild on save is part of C01's mechanism: the harnesses are shared with C07
